@@ -1483,7 +1483,13 @@ func parseOutlineLevel(s string) int {
 	return -1
 }
 
-// parseListLevel parses a list level string to an integer (0-based).
+// maxListLevel is the deepest list level WordprocessingML has (w:ilvl 0..8).
+const maxListLevel = 8
+
+// parseListLevel parses a list level string to an integer (0-based). The level
+// is a number written in the file and every writer repeats the indentation
+// that many times for each item: anything deeper than the deepest level is
+// reported as the deepest level.
 func parseListLevel(s string) int {
 	if s == "" {
 		return 0
@@ -1492,6 +1498,9 @@ func parseListLevel(s string) int {
 	for _, c := range s {
 		if c >= '0' && c <= '9' {
 			level = level*10 + int(c-'0')
+			if level > maxListLevel {
+				return maxListLevel
+			}
 		}
 	}
 	return level
